@@ -38,6 +38,9 @@ type Service struct {
 	engine  *gin.Engine
 	clients []*ClientService
 
+	// guards clients, Agents and Listeners: every service connection has its own goroutine
+	tablesMtx sync.Mutex
+
 	Config profile.ServiceConfig
 
 	Teamserver Teamserver
